@@ -42,8 +42,11 @@ class RuleEpisode:
         v, d, x = rule["verb"], rule["dir"], rule["exc"]
         od = "imported" if d == "import" else "import"
         if rule["any"]:
-            r2 = self.eval(mk_rule("should_not", d, True, rule["subs"], rule["subs"]), a)
-            self.law("any", [rid, r2], [a, a])
+            from harness.names import related
+            ns = [tuple(f["name"]) for f in rule["subs"]]
+            if all(not related(x, y) for i, x in enumerate(ns) for y in ns[i + 1:]):
+                r2 = self.eval(mk_rule("should_not", d, True, rule["subs"], rule["subs"]), a)
+                self.law("any", [rid, r2], [a, a])
             return rid
         single = len(rule["subs"]) == 1 and len(rule["objs"]) == 1
         if v in ("should", "should_not") and not x:
